@@ -563,11 +563,12 @@ def generate_richardson_integrator(basis_integrator, richardson_iter=2):
             if self.symplectic:
                 timestep = dt0
                 next_timestep = D.ar_numpy.copy(dt0)
-                if (0.8 * new_timestep + 0.2 * timestep) < next_timestep:
-                    while new_timestep < next_timestep:
+                # magnitudes are compared: the steps are negative when integrating backward in time
+                if D.ar_numpy.abs(0.8 * new_timestep + 0.2 * timestep) < D.ar_numpy.abs(next_timestep):
+                    while D.ar_numpy.abs(new_timestep) < D.ar_numpy.abs(next_timestep):
                         next_timestep /= 2.0
                 else:
-                    while (0.8 * new_timestep + 0.2 * timestep) > 2 * next_timestep:
+                    while D.ar_numpy.abs(0.8 * new_timestep + 0.2 * timestep) > 2 * D.ar_numpy.abs(next_timestep):
                         next_timestep *= 2.0
                     redo_step = False
             else:
